@@ -6,8 +6,9 @@ bindings σ (placeholder lookups while planning, `used` bookkeeping, the two bin
 `execInlined σ st db` = the statement text with the values written as literals.
 -/
 import Gms.Model.Prepared
+import Gms.Model.PreparedSchema
 import Gms.Generated.C12
-open Gms.Sql Gms.Prepared
+open Gms.Sql Gms.Prepared Gms.PreparedSchema
 
 namespace Gms.C12
 
@@ -227,6 +228,355 @@ example : execAll [(demoUpdate, [some (.int 10), some (.int 1)]), (demoUpdate, [
 example : (exec [some (.int 10)] demoUpdate demoTable).1 = .errMissing := by decide
 example : (exec [some (.int 10), some (.int 1), some (.int 7)] demoUpdate demoTable).1 = .errUnused := by decide
 
+/-! ## Prepared statements across schema changes (Gms/Model/PreparedSchema.lean)
+
+The cached statement AST is re-bound against the catalog of the moment at every execution; the implicit
+lists (INSERT column list, `*`, NATURAL JOIN's USING list) must therefore be those of the moment, exactly
+as for the statement text parsed afresh. -/
+
+/-- the binder leaves every statement but a natural join exactly as it found it (nothing derived from the
+catalog or from the bindings of one execution is recorded in the cached AST) -/
+theorem bind_eq_self (db : Db) (s : SStmt) (h : s.isNatJoin = false) : bindAst db s = s := by
+  cases s <;> simp [bindAst, SStmt.isNatJoin] at h ⊢
+
+theorem effUsing_idem (db : Db) (l : List Nat) : effUsing db (effUsing db l) = effUsing db l := by
+  unfold effUsing
+  by_cases h : l.isEmpty = true
+  · simp only [h, if_true]; split <;> rfl
+  · simp [h]
+
+theorem bind_idem (db : Db) (s : SStmt) : bindAst db (bindAst db s) = bindAst db s := by
+  cases s <;> simp [bindAst, effUsing_idem]
+
+theorem strip_bind (db : Db) (s : SStmt) : (bindAst db s).strip = s.strip := by
+  cases s <;> rfl
+
+theorem params_bind (db : Db) (s : SStmt) : (bindAst db s).params = s.params := by
+  cases s <;> rfl
+
+theorem params_strip (s : SStmt) : s.strip.params = s.params := by
+  cases s <;> rfl
+
+theorem isNatJoin_strip (s : SStmt) : s.strip.isNatJoin = s.isNatJoin := by
+  cases s <;> rfl
+
+theorem strip_strip (s : SStmt) : s.strip.strip = s.strip := by
+  cases s <;> rfl
+
+/-- running the re-bound AST is running the AST: the binder's expansion is the one `runS` performs -/
+theorem runS_bind (σ : Bindings) (db : Db) (s : SStmt) : runS σ (bindAst db s) db = runS σ s db := by
+  cases s <;> simp [bindAst, runS, effUsing_idem]
+
+/-- substitution lemma for the catalog-dependent statements, for every physical column order -/
+theorem runS_subst (σ : Bindings) (st : SStmt) (db : Db) (h : ∀ i ∈ st.params, (lookup σ i).isSome) :
+    runS σ st db = runS [] (st.subst σ) db := by
+  cases st with
+  | plain s =>
+    have := run_subst σ s db.rows (by simpa [SStmt.params] using h)
+    simp only [runS, SStmt.subst, this]
+  | insertAll vals =>
+    have hv := atoms_eval_subst σ vals (fun i hi => h i (by simpa [SStmt.params] using hi))
+    simp only [runS, SStmt.subst, hv]
+  | insertCols cols vals =>
+    have hv := atoms_eval_subst σ vals (fun i hi => h i (by simpa [SStmt.params] using hi))
+    simp only [runS, SStmt.subst, hv]
+  | selectStar w =>
+    have hw : ∀ r, w.eval σ r = (w.subst σ).eval [] r := fun r =>
+      pexpr_eval_subst σ r w (fun i hi => h i (by simpa [SStmt.params] using hi))
+    simp only [runS, SStmt.subst, hw]
+  | natJoin l w =>
+    have hw : ∀ r, w.eval σ r = (w.subst σ).eval [] r := fun r =>
+      pexpr_eval_subst σ r w (fun i hi => h i (by simpa [SStmt.params] using hi))
+    simp only [runS, SStmt.subst, hw]
+
+/-- a cached AST that is its text up to the recorded USING list, and whose recorded list is the current
+one, binds to what the text binds to -/
+theorem bind_eq_of_fresh (db : Db) (text cached : SStmt) (hrel : cached.strip = text)
+    (hf : stale db cached = false) : bindAst db cached = bindAst db text := by
+  subst hrel
+  cases cached with
+  | natJoin l w =>
+    simp only [stale, Bool.and_eq_false_iff, Bool.not_eq_false', bne_eq_false_iff_eq] at hf
+    simp only [SStmt.strip, bindAst, effUsing]
+    rcases hf with hf | hf
+    · simp [hf]
+    · subst hf; simp only [List.isEmpty_nil, if_true]; split <;> rfl
+  | _ => rfl
+
+theorem execS_ast (σ : Bindings) (cached : SStmt) (db : Db) : (execS σ cached db).2.2 = bindAst db cached := by
+  unfold execS execG
+  split
+  · rfl
+  · split
+    · rfl
+    · split <;> rfl
+
+/-- a catalog error found while planning is the outcome of the reference semantics too -/
+theorem runS_of_planErr (σ : Bindings) (db : Db) (s : SStmt) (e : SOutcome) (h : planErr db s = some e) :
+    runS σ s db = (e, db) := by
+  cases s with
+  | plain st => simp [planErr] at h
+  | selectStar w => simp [planErr] at h
+  | insertAll vals =>
+    simp only [planErr] at h
+    split at h
+    · rename_i hc
+      cases h
+      have : (db.ord.any fun c => !db.ord.contains c) = false := by
+        rw [List.any_eq_false]; intro c hc'; simp [hc']
+      simp only [runS, insertRow, this, Bool.false_eq_true, if_false, List.length_map, hc, if_true]
+    · cases h
+  | insertCols cols vals =>
+    simp only [planErr] at h
+    split at h
+    · rename_i hc
+      cases h
+      simp only [runS, insertRow, hc, if_true]
+    · rename_i hc
+      split at h
+      · rename_i hl
+        cases h
+        simp only [runS, insertRow, hc, Bool.false_eq_true, if_false, List.length_map, hl, if_true]
+      · cases h
+  | natJoin l w =>
+    simp only [planErr] at h
+    split at h
+    · rename_i hc
+      cases h
+      simp only [runS, hc, if_true]
+    · cases h
+
+/-- **bind = inline across schema changes** (one execution): the cached AST, executed with bindings
+against the catalog of the moment, gives the result and the table of the statement text with the values
+inlined and parsed afresh — provided the AST is not a natural join with a stale USING list. -/
+theorem execS_eq_inlined_partial (σ : Bindings) (text cached : SStmt) (db : Db) (hrel : cached.strip = text)
+    (hf : stale db cached = false) (hw : WellBoundS σ text) :
+    (execS σ cached db).1 = (execSInlined σ text db).1 ∧ (execS σ cached db).2.1 = (execSInlined σ text db).2 := by
+  have hp : cached.params = text.params := by rw [← hrel, params_strip]
+  have h1 : missing σ cached = false := by
+    unfold missing; rw [hp, List.any_eq_false]
+    intro i hi
+    have := hw.1 i hi
+    cases hl : lookup σ i <;> simp_all
+  have h2 : unused σ cached = false := by
+    unfold unused; rw [hp, List.any_eq_false]
+    intro i hi
+    have hlt : i < σ.length := by simpa using hi
+    cases hl : (lookup σ i).isSome with
+    | false => simp
+    | true => simp [hw.2 i hlt hl]
+  have hb := bind_eq_of_fresh db text cached hrel hf
+  have hrun : runS σ (bindAst db cached) db = runS [] (text.subst σ) db := by
+    rw [hb, runS_bind, runS_subst σ text db hw.1]
+  unfold execS execG execSInlined
+  cases hp : planErr db (bindAst db cached) with
+  | some e =>
+    have := runS_of_planErr σ db (bindAst db cached) e hp
+    rw [hrun] at this
+    simp only [this, and_self]
+  | none => simp only [h1, h2, Bool.false_eq_true, if_false, hrun, and_self]
+
+/-- the full statement (`stale` guard dropped) is false on the unchanged tree:
+    `∀ σ text cached db, cached.strip = text → WellBoundS σ text → (execS σ cached db).1 = (execSInlined σ text db).1`
+see `finding_natural_join_using_memoised`. -/
+theorem execS_eq_inlined_of_not_natJoin (σ : Bindings) (text : SStmt) (db : Db) (hn : text.isNatJoin = false)
+    (hw : WellBoundS σ text) :
+    (execS σ text db).1 = (execSInlined σ text db).1 ∧ (execS σ text db).2.1 = (execSInlined σ text db).2 := by
+  have hs : text.strip = text := by cases text <;> simp [SStmt.isNatJoin] at hn <;> rfl
+  have hf : stale db text = false := by cases text <;> simp [SStmt.isNatJoin] at hn <;> rfl
+  exact execS_eq_inlined_partial σ text text db hs hf hw
+
+theorem cachedOf_strip (texts : List SStmt) (c : Cache) (i : Nat) (hU : ∀ j, (textOf texts j).strip = textOf texts j)
+    (hc : CacheOk texts c) : (cachedOf texts c i).strip = textOf texts i := by
+  unfold cachedOf
+  cases hl : c.lookup i with
+  | none => exact hU i
+  | some s => exact hc i s hl
+
+theorem cacheOk_cons (texts : List SStmt) (c : Cache) (i : Nat) (s : SStmt) (hc : CacheOk texts c)
+    (hs : s.strip = textOf texts i) : CacheOk texts ((i, s) :: c) := by
+  intro j t hj
+  rw [List.lookup_cons] at hj
+  by_cases hji : (j == i) = true
+  · simp only [hji] at hj
+    have : j = i := by simpa using hji
+    cases hj; rw [this]; exact hs
+  · simp only [hji] at hj
+    exact hc j t hj
+
+/-- **histories with schema changes**: whatever was executed before — other statements, re-executions with
+other values, DML, `ALTER TABLE … MODIFY/ADD/DROP COLUMN` — every execution of every prepared statement
+returns what the inlined text returns at that moment, as long as no natural join is run on a stale USING
+list (the region of the listed finding, decided along the run). -/
+theorem implAll_eq_specAll_partial (texts : List SStmt) (hU : ∀ j, (textOf texts j).strip = textOf texts j)
+    (steps : List Step) (db : Db) (c : Cache) (hc : CacheOk texts c) (hw : StepsWellBound texts steps)
+    (hs : staleFree texts steps db c = true) : implAll texts steps db c = specAll texts steps db := by
+  induction steps generalizing db c with
+  | nil => rfl
+  | cons st rest ih =>
+    cases st with
+    | ddl d =>
+      simp only [implAll, implAllG, specAll]
+      congr 1
+      exact ih _ c hc (fun q hq => hw q (by simp [hq])) (by simpa [staleFree] using hs)
+    | exec i σ =>
+      simp only [staleFree, Bool.and_eq_true, Bool.not_eq_eq_eq_not, Bool.not_true] at hs
+      have hrel := cachedOf_strip texts c i hU hc
+      have hwb : WellBoundS σ (textOf texts i) := hw (.exec i σ) (by simp)
+      have hstep := execS_eq_inlined_partial σ (textOf texts i) (cachedOf texts c i) db hrel hs.1 hwb
+      have hstep1 : (execG bindAst σ (cachedOf texts c i) db).1 = (execSInlined σ (textOf texts i) db).1 := hstep.1
+      have hstep2 : (execG bindAst σ (cachedOf texts c i) db).2.1 = (execSInlined σ (textOf texts i) db).2 := hstep.2
+      simp only [implAll, implAllG, specAll]
+      rw [hstep1]
+      congr 1
+      have hc' : CacheOk texts ((i, (execS σ (cachedOf texts c i) db).2.2) :: c) :=
+        cacheOk_cons texts c i _ hc (by rw [execS_ast, strip_bind]; exact hrel)
+      have := ih ((execS σ (cachedOf texts c i) db).2.1) _ hc' (fun q hq => hw q (by simp [hq])) hs.2
+      rw [← hstep2]
+      exact this
+
+theorem staleFree_of_no_natJoin (texts : List SStmt) (hU : ∀ j, (textOf texts j).strip = textOf texts j)
+    (hn : ∀ j, (textOf texts j).isNatJoin = false) (steps : List Step) (db : Db) (c : Cache) (hc : CacheOk texts c) :
+    staleFree texts steps db c = true := by
+  induction steps generalizing db c with
+  | nil => rfl
+  | cons st rest ih =>
+    cases st with
+    | ddl d => simpa [staleFree] using ih _ c hc
+    | exec i σ =>
+      have hrel := cachedOf_strip texts c i hU hc
+      have hnj : (cachedOf texts c i).isNatJoin = false := by
+        rw [← isNatJoin_strip, hrel]; exact hn i
+      have hst : stale db (cachedOf texts c i) = false := by
+        cases hco : cachedOf texts c i <;> simp [hco, SStmt.isNatJoin] at hnj <;> rfl
+      have hc' : CacheOk texts ((i, (execS σ (cachedOf texts c i) db).2.2) :: c) :=
+        cacheOk_cons texts c i _ hc (by rw [execS_ast, strip_bind]; exact hrel)
+      simp only [staleFree, hst, Bool.not_false, Bool.true_and]
+      exact ih _ _ hc'
+
+theorem textOf_strip_of_no_natJoin (texts : List SStmt) (hn : ∀ j, (textOf texts j).isNatJoin = false) (j : Nat) :
+    (textOf texts j).strip = textOf texts j := by
+  have := hn j
+  cases h : textOf texts j <;> simp [h, SStmt.isNatJoin] at this <;> rfl
+
+/-- **full strength outside natural joins**: for every pool of statements without NATURAL JOIN (implicit
+INSERT column lists, `SELECT *`, explicit lists, named SELECT / UPDATE / DELETE), every history of
+executions interleaved with arbitrary schema changes, starting from an empty statement cache: the
+prepared executions observe exactly what the inlined texts observe. -/
+theorem implAll_eq_specAll (texts : List SStmt) (hn : ∀ j, (textOf texts j).isNatJoin = false)
+    (steps : List Step) (db : Db) (hw : StepsWellBound texts steps) :
+    implAll texts steps db [] = specAll texts steps db := by
+  have hU := textOf_strip_of_no_natJoin texts hn
+  have hc : CacheOk texts [] := by intro i s h; simp at h
+  exact implAll_eq_specAll_partial texts hU steps db [] hc hw (staleFree_of_no_natJoin texts hU hn steps db [] hc)
+
+/-- the statement cache stays "text up to the USING list" along every history -/
+theorem cacheOk_final (texts : List SStmt) (hU : ∀ j, (textOf texts j).strip = textOf texts j)
+    (steps : List Step) (db : Db) (c : Cache) (hc : CacheOk texts c) :
+    CacheOk texts (finalCacheG bindAst texts steps db c) := by
+  induction steps generalizing db c with
+  | nil => exact hc
+  | cons st rest ih =>
+    cases st with
+    | ddl d => exact ih _ c hc
+    | exec i σ =>
+      have hrel := cachedOf_strip texts c i hU hc
+      exact ih _ _ (cacheOk_cons texts c i _ hc (by
+        show ((execS σ (cachedOf texts c i) db).2.2).strip = textOf texts i
+        rw [execS_ast, strip_bind]; exact hrel))
+
+/-- **no execution leaves anything behind in the cached AST of a statement that is not a natural join**:
+after every history with every schema change, every AST the session holds for a pool without NATURAL JOIN
+is still the parse of its text (what the harness observes as `String(cached) = String(parse text)`) -/
+theorem no_drift_without_natJoin (texts : List SStmt) (hn : ∀ j, (textOf texts j).isNatJoin = false)
+    (steps : List Step) (db : Db) : driftedStmts texts (finalCacheG bindAst texts steps db []) = [] := by
+  have hU := textOf_strip_of_no_natJoin texts hn
+  have hc : CacheOk texts [] := by intro i s h; simp at h
+  have hf := cacheOk_final texts hU steps db [] hc
+  unfold driftedStmts
+  rw [List.filter_eq_nil_iff]
+  intro i _
+  cases hl : (finalCacheG bindAst texts steps db []).lookup i with
+  | none => simp
+  | some s =>
+    have h1 : s.strip = textOf texts i := hf i s hl
+    have h2 : s.isNatJoin = false := by rw [← isNatJoin_strip, h1]; exact hn i
+    cases s <;> simp [SStmt.isNatJoin] at h2 <;> simp [drifted]
+
+/-! ### the finding and the class of the seeded change, on concrete histories -/
+
+def sDb : Db := { ord := [0, 1, 2], rows := [[.int 1, .int 10, .str [97]], [.int 2, .int 20, .str [66]], [.int 3, .int 30, .str [99]]],
+                  u := [[.int 10, .int 7, .int 100], [.int 20, .int 8, .int 200], [.int 30, .int 7, .int 300], [.int 10, .int 9, .int 400]] }
+
+def sTexts : List SStmt :=
+  [ .natJoin [] (.cmp .gt (.col 0) (.atom (.param 0))),
+    .insertAll [.param 0, .param 1, .param 2],
+    .selectStar (.cmp .gt (.col 0) (.atom (.param 0))) ]
+
+/-- witness (replayed on the real engine, known_findings/C12.jsonl): prepared
+`SELECT * FROM t NATURAL JOIN u WHERE id > ?`, executed, then `ALTER TABLE t ADD COLUMN c INT DEFAULT 7`,
+executed again: the cached AST still joins USING (k) — 4 rows of 6 columns — while the text joins on (k, c). -/
+theorem finding_natural_join_using_memoised :
+    ∃ texts steps db, StepsWellBound texts steps ∧ implAll texts steps db [] ≠ specAll texts steps db :=
+  ⟨sTexts, [.exec 0 [some (.int 0)], .ddl (.addCol none), .exec 0 [some (.int 0)]], sDb,
+    by intro st hst; simp at hst; rcases hst with rfl | rfl | rfl <;> first | trivial | (constructor <;> decide),
+    by decide⟩
+
+example : implAll sTexts [.exec 0 [some (.int 0)], .ddl (.addCol none), .exec 0 [some (.int 0)]] sDb [] =
+    [.out (.base (.rows [[.int 10, .int 1, .str [97], .int 7, .int 100], [.int 10, .int 1, .str [97], .int 9, .int 400],
+        [.int 20, .int 2, .str [66], .int 8, .int 200], [.int 30, .int 3, .str [99], .int 7, .int 300]])), .ddl,
+     .out (.base (.rows [[.int 10, .int 1, .str [97], .int 7, .int 7, .int 100], [.int 10, .int 1, .str [97], .int 7, .int 9, .int 400],
+        [.int 20, .int 2, .str [66], .int 7, .int 8, .int 200], [.int 30, .int 3, .str [99], .int 7, .int 7, .int 300]]))] := by decide
+
+example : staleFree sTexts [.exec 0 [some (.int 0)], .ddl (.addCol none), .exec 0 [some (.int 0)]] sDb [] = false := by decide
+
+/-- non-vacuity of `implAll_eq_specAll`: implicit INSERT re-executed across a column re-order and an added
+column, observed through `SELECT *` -/
+def sHist : List Step :=
+  [.exec 1 [some (.int 4), some (.int 40), some (.str [100])], .ddl (.moveFirst 1),
+   .exec 1 [some (.int 50), some (.int 5), some (.str [101])], .exec 2 [some (.int 3)],
+   .ddl (.addCol (some none)), .exec 1 [some (.int 6), some (.int 60), some (.str [102])], .exec 2 [some (.int 4)]]
+
+example : implAll sTexts sHist sDb [] =
+    [.out (.base (.ok 1)), .ddl, .out (.base (.ok 1)), .out (.base (.rows [[.int 40, .int 4, .str [100]], [.int 50, .int 5, .str [101]]])),
+     .ddl, .out .errCount, .out (.base (.rows [[.int 7, .int 50, .int 5, .str [101]]]))] := by decide
+
+/-- **the class of the seeded change**: a binder that records the expanded column list of
+`INSERT INTO t VALUES (…)` in the cached AST (`bindMemoInsert`) is *not* equivalent to the inlined text on
+histories without any natural join — the same history as above tells them apart (second INSERT: the
+values go to the columns of the first bind; third INSERT: succeeds where the text is rejected). -/
+theorem memo_insert_diverges :
+    ∃ texts steps db, (∀ j, (textOf texts j).isNatJoin = false) ∧ StepsWellBound texts steps ∧
+      implAllG bindMemoInsert texts steps db [] ≠ specAll texts steps db :=
+  ⟨sTexts.drop 1, [.exec 0 [some (.int 4), some (.int 40), some (.str [100])], .ddl (.moveFirst 1),
+      .exec 0 [some (.int 50), some (.int 5), some (.str [101])], .exec 1 [some (.int 3)]], sDb,
+    by
+      intro j
+      match j with
+      | 0 => rfl
+      | 1 => rfl
+      | (_ + 2) => rfl,
+    by intro st hst; simp at hst; rcases hst with rfl | rfl | rfl | rfl <;> first | trivial | (constructor <;> decide),
+    by decide⟩
+
+/-- …and it is invisible as long as the catalog does not change: on a history without schema changes the
+recording binder observes what the unchanged binder observes (why ordinary use never shows it) -/
+example : implAllG bindMemoInsert sTexts [.exec 1 [some (.int 4), some (.int 40), some (.str [100])],
+      .exec 1 [some (.int 5), some (.int 50), some (.str [101])], .exec 2 [some (.int 3)]] sDb [] =
+    implAll sTexts [.exec 1 [some (.int 4), some (.int 40), some (.str [100])],
+      .exec 1 [some (.int 5), some (.int 50), some (.str [101])], .exec 2 [some (.int 3)]] sDb [] := by decide
+
+/-- conservative extension: on the base schema the implicit INSERT of this layer is the INSERT of
+Gms/Model/Prepared.lean -/
+theorem insertAll_base (σ : Bindings) (a b c : Atom) (rows u : Table) :
+    runS σ (.insertAll [a, b, c]) { ord := [0, 1, 2], rows := rows, u := u } =
+      (.base (run σ (.insert [a, b, c]) rows).1, { ord := [0, 1, 2], rows := (run σ (.insert [a, b, c]) rows).2, u := u }) := by
+  have hrow : rowOf 3 [0, 1, 2] [a.eval σ, b.eval σ, c.eval σ] = [a.eval σ, b.eval σ, c.eval σ] := by
+    simp [rowOf, List.range, List.range.loop, List.idxOf, List.findIdx, List.findIdx.go]
+  simp only [runS, insertRow, run, width, List.map]
+  simp [hrow]
+  split <;> (try split) <;> simp_all
+
 /-! ### literal classes -/
 
 /-- the AST literal built from a bound wire value has the class the parser gives the literal text -/
@@ -260,6 +610,47 @@ theorem facts_match :
     Gms.Generated.C12.queryWithBindingsErrors = ["invalid arguments. expected: %d, found: %d"] ∧
     Gms.Generated.C12.preparedStatementCalls =
       ["ctx.Session.GetPreparedQuery(query)", "ctx.Session.GetPreparedQuery(query)", "binder.SetBindings(bindings)"] := by
+  decide
+
+/-- the model statement a corpus entry of the regenerated run-time table `astStable` corresponds to -/
+def modelKindOf : String → Option SStmt
+  | "insert_implicit_columns" => some (.insertAll [.param 0, .param 1, .param 2])
+  | "insert_explicit_columns" => some (.insertCols [0, 1, 2] [.param 0, .param 1, .param 2])
+  | "select_star" => some (.selectStar (.cmp .gt (.col 0) (.atom (.param 0))))
+  | "natural_join" => some (.natJoin [] (.cmp .gt (.col 0) (.atom (.param 0))))
+  | "update_where" => some (.plain (.update 1 (.arith .add (.col 1) (.atom (.param 0))) (.cmp .eq (.col 0) (.atom (.param 1)))))
+  | "delete_where" => some (.plain (.delete (.or (.cmp .eq (.col 0) (.atom (.param 0))) (.cmp .gt (.col 1) (.atom (.param 1))))))
+  | _ => none
+
+/-- regenerated on every run — **what a bind leaves behind in the prepared statement**.
+(a) `astWrites` (go/ast over sql/planbuilder): the complete list of assignments whose left-hand side goes
+through a variable holding a node of the parsed statement. The only one that records something computed
+from the *catalog* is `buildUsingJoin: te.Condition.Using` (the model's `bindAst`, finding
+`natural_join_using_memoised`); the others record something computed from the statement itself (GRANT
+auth plumbing, the table qualifier of `VALUES(col)` in ON DUPLICATE KEY UPDATE, the charset-introducer
+COLLATE child, an integer `SET sql_mode`/collation literal turned into its name, a column definition's
+collation). A new write — e.g. recording the expanded column list of an INSERT — changes this list.
+(b) `astStable` (engine run, PrepareQuery + two executions of one statement per kind): the AST the session
+holds afterwards is still the parse of the statement text for every kind except the three listed
+(natural joins: USING list; ON DUPLICATE KEY UPDATE: `VALUES(k)` → `VALUES(pt.k)`; introducer + COLLATE),
+every execution succeeds, and for the kinds that have a model statement the cached AST drifts exactly
+when `bindAst` changes that statement (`bind_eq_self`). -/
+theorem facts_ast :
+    Gms.Generated.C12.astWrites =
+      [("buildGrantPrivilege", "n.Auth.Extra"), ("buildGrantProxy", "n.Auth.Extra"), ("buildGrantRole", "n.Auth.Extra"),
+       ("buildRevokePrivilege", "n.Auth.Extra"), ("buildRevokeRole", "n.Auth.Extra"),
+       ("buildScalar", "v.Name.Name"), ("buildScalar", "v.Name.Qualifier.Name"), ("buildUnaryScalar", "e.Expr"),
+       ("buildUsingJoin", "te.Condition.Using"), ("setExprsToExpressions", "setExpr.Expr"),
+       ("tableSpecToSchema", "cd.Type.Collate"), ("visible", "auth.TargetType")] ∧
+    Gms.Generated.C12.astStable.length = 26 ∧
+    ((Gms.Generated.C12.astStable.filter fun e => !e.2.1).map fun e => e.1) =
+      ["insert_on_duplicate_key", "natural_join", "natural_left_join", "select_introducer_collate"] ∧
+    (Gms.Generated.C12.astStable.all fun e => e.2.2 == "ok") = true ∧
+    (Gms.Generated.C12.astStable.all fun e =>
+      match modelKindOf e.1 with
+      | some s => e.2.1 == !s.isNatJoin
+      | none => true) = true ∧
+    ((Gms.Generated.C12.astStable.filter fun e => (modelKindOf e.1).isSome).length = 6) := by
   decide
 
 end Gms.C12
